@@ -12,7 +12,7 @@ import sys
 import time
 import traceback
 
-from . import VERIF
+from . import REPO, VERIF
 
 PROPS = ["C01", "C02", "C03", "C04", "C05", "C06", "C07", "C08", "C09", "C10", "C11", "C12", "C13", "C15", "C16", "C17"]
 
@@ -75,6 +75,9 @@ def _worker(args):
                         "instances": cl.vc.n_instances,
                         "reason": cl.vc.reason,
                     }
+                    if getattr(cl.vc, "cross", None) is not None:
+                        rec["cross"] = cl.vc.cross
+                        rec["cross_seconds"] = cl.vc.cross_seconds
                     if cl.vc.verdict == "sat":
                         rec["model"] = getattr(cl.vc, "model_values", {})
                         try:
@@ -250,6 +253,13 @@ def check(prop, tier, jobs, write_evidence=True):
         for name in lost:
             print(f"CHECKER-FAILURE lost-coverage obligation={name}")
         code = 3
+    seed_matrix = None
+    if tier == "thorough" and code == 0 and os.environ.get("HGV_SEEDS", "1") == "1" and REPO == "/repo":
+        seed_matrix = run_seed_matrix(prop, jobs)
+        for e in seed_matrix["entries"]:
+            if e["result"] == "not-detected":
+                print(f"CHECKER-FAILURE seeded change {e['seed']} is no longer detected by {prop} (exit {e['exit']})")
+                code = 3
     n_ob = len(obligations) - len([1 for n, _ in known_hits if n in obligations])
     if code == 0 and n_ob <= 0:
         print(f"CHECKER-FAILURE property={prop}: zero obligations generated")
@@ -267,6 +277,7 @@ def check(prop, tier, jobs, write_evidence=True):
             undecided,
             oor,
             time.time() - t0,
+            seed_matrix=seed_matrix,
         )
     print(
         f"[hgv] property={prop} tier={tier} obligations={len(obligations)} discharged={discharged} "
@@ -274,6 +285,56 @@ def check(prop, tier, jobs, write_evidence=True):
         f"out-of-reach={len(oor)} vcs={len(recs)} wall={time.time() - t0:.1f}s exit={code}"
     )
     return code
+
+
+def run_seed_matrix(prop, jobs):
+    """thorough tier: the kept seeded changes (/verif/seeded/*/patch.diff) that this property's check is recorded
+    to catch are re-applied to a scratch copy of the current tree; the check must exit 1 on each.  A patch that
+    no longer applies is skipped (recorded).  Bounded by HGV_SEED_BUDGET seconds (default 2400)."""
+    import glob
+    import shutil
+    import subprocess
+    import tempfile
+
+    budget = float(os.environ.get("HGV_SEED_BUDGET", "2400"))
+    t0 = time.time()
+    entries = []
+    for meta_path in sorted(glob.glob(os.path.join(VERIF, "seeded", "*", "meta.json"))):
+        d = os.path.dirname(meta_path)
+        try:
+            with open(meta_path) as f:
+                meta = json.load(f)
+        except Exception:
+            continue
+        if not meta.get("detected") or not any(str(c).split(":")[0].strip() == prop for c in meta.get("caught_by", [])):
+            continue
+        name = os.path.basename(d)
+        if time.time() - t0 > budget:
+            entries.append({"seed": name, "result": "skipped: time budget"})
+            continue
+        w = tempfile.mkdtemp(prefix="hgv_seed_")
+        try:
+            shutil.copytree(os.path.join(REPO, "histogrammar"), os.path.join(w, "histogrammar"))
+            p = subprocess.run(["patch", "-p1", "-s", "-i", os.path.join(d, "patch.diff")], cwd=w, capture_output=True, text=True)
+            if p.returncode != 0:
+                entries.append({"seed": name, "result": "skipped: patch no longer applies"})
+                continue
+            t1 = time.time()
+            env = {**os.environ, "HGV_REPO": w, "HGV_SEEDS": "0"}
+            q = subprocess.run([sys.executable, "-m", "hgv", "check", prop, "--tier", "quick", "--no-evidence", "--jobs", str(jobs)], cwd=VERIF, env=env, capture_output=True, text=True)
+            viol = [l for l in q.stdout.splitlines() if l.startswith("VIOLATION")]
+            entries.append(
+                {
+                    "seed": name,
+                    "result": "detected" if q.returncode == 1 and viol else "not-detected",
+                    "exit": q.returncode,
+                    "violations": [v.split("replay=")[-1].replace(os.path.join(VERIF, "replays") + "/", "") for v in viol][:4],
+                    "seconds": round(time.time() - t1, 1),
+                }
+            )
+        finally:
+            shutil.rmtree(w, ignore_errors=True)
+    return {"entries": entries, "detected": sum(1 for e in entries if e["result"] == "detected"), "total": len(entries), "seconds": round(time.time() - t0, 1)}
 
 
 def baseline(jobs, only=()):
